@@ -304,7 +304,7 @@ theorem runEvent_local (P : Package) (N : Num D) (hP : EventLocal P = true)
   have h0 := classInit_clean (D := D) P hnd
   have hres := exec_sound (P.ctx N ev) P.daCtx rfl (tokenBank_some P N ev) P.body _ s'
     { env := σc, rows := [] } { env := classInit P.classVars, rows := [] } hda (classDA_AsubD _)
-    (good_of_clean P σc _ hc h0) rfl
+    ⟨good_of_clean P σc _ hc h0, by intro f hf; simp [classDA] at hf, by intro p hp; simp [classDA] at hp⟩ rfl
   obtain ⟨_, _, hDm⟩ := da_mono P.daCtx P.body _ s' hda (classDA_AsubD _)
   unfold runEvent
   rcases hres with ⟨f, e1, e2, _⟩ | ⟨t, t', e1, e2, hg, hr⟩
@@ -333,7 +333,7 @@ theorem runEvent_local (P : Package) (N : Num D) (hP : EventLocal P = true)
         obtain ⟨p, hm, rfl⟩ := hx
         simp only [List.any_eq_true, decide_eq_true_eq]
         exact ⟨p, hm, rfl⟩
-      simp [keepClass, hxc, (hg.2 x hxD).1]
+      simp [keepClass, hxc, (hg.1.2 x hxD).1]
 
 /-- Each event processed alone, from the initial class state. -/
 def perEvent (P : Package) (N : Num D) : List (Event D) → Except Fault (List (List (Val D)))
